@@ -416,12 +416,18 @@ class Builder:
     def _stmt(self, s, frame):
         hook = getattr(self, '_yield_hook', None)
         if hook is not None and isinstance(s, (ast.Expr, ast.Assign)) and \
-                s.value is hook[0]:
-            # the yield of a context manager being inlined by _with
+                (s.value is hook[0] or (
+                    isinstance(hook[0], frozenset) and
+                    id(s.value) in hook[0])):
+            # the yield of a context manager / generator being inlined by
+            # _with / a for statement
             self._yield_hook = None
             self._yield_frame = frame
             try:
-                hook[1]()
+                if isinstance(hook[0], frozenset):
+                    hook[1](s.value, frame)
+                else:
+                    hook[1]()
             finally:
                 self._yield_hook = hook
             return
@@ -549,6 +555,76 @@ class Builder:
             self._expr(s.iter, frame)
             for _ in range(self._const_trips(s, frame)):
                 self._body(s.body, frame)
+        elif isinstance(s, ast.For) and \
+                self._gen_target(s.iter, frame) is not None:
+            # for <targets> in <generator function of the repository>(...):
+            # the generator's code runs with the loop body in place of every
+            # `yield v` (targets = v; body); `continue` resumes the
+            # generator, `break` leaves it
+            t, res, yields = self._gen_target(s.iter, frame)
+            e2 = s.iter
+            self._expr(e2.func, frame)
+            for a in e2.args:
+                self._expr(a.value if isinstance(a, ast.Starred) else a,
+                           frame)
+            for k in e2.keywords:
+                self._expr(k.value, frame)
+            if self.dangling:
+                breaks = []
+
+                def body(ynode, gframe):
+                    if not self.dangling:
+                        return
+                    asg = ast.Assign(targets=[s.target], value=ynode.value
+                                     if ynode.value is not None
+                                     else ast.Constant(value=None))
+                    ast.copy_location(asg, s)
+                    asg.end_lineno = getattr(s, 'end_lineno', None)
+                    an = self._emit('stmt', asg, frame)
+                    an.extra['yield_value'] = ynode.value
+                    an.extra['yield_frame'] = gframe
+                    resume = self._new('nop', None, frame)
+                    sc = Scope('loop', s, frame, cont=resume, breaks=breaks)
+                    self.stack.append(sc)
+                    # loop variables this yield binds to literals (a flag
+                    # yielded as True / False) are known in this copy of
+                    # the body, unless the body re-binds them
+                    saved_lc = dict(getattr(self, '_local_consts', {}))
+                    lc = dict(saved_lc)
+                    tg, yv = s.target, ynode.value
+                    pairs = []
+                    if isinstance(tg, ast.Name) and yv is not None:
+                        pairs = [(tg, yv)]
+                    elif isinstance(tg, (ast.Tuple, ast.List)) and \
+                            isinstance(yv, (ast.Tuple, ast.List)) and \
+                            len(tg.elts) == len(yv.elts):
+                        pairs = list(zip(tg.elts, yv.elts))
+                    for a2, b2 in pairs:
+                        if isinstance(a2, ast.Name):
+                            lc.pop((id(frame), a2.id), None)
+                            if isinstance(b2, ast.Constant) and not any(
+                                    isinstance(x, ast.Name) and
+                                    x.id == a2.id and
+                                    isinstance(x.ctx, (ast.Store, ast.Del))
+                                    for st in s.body for x in ast.walk(st)):
+                                lc[(id(frame), a2.id)] = b2.value
+                    self._local_consts = lc
+                    try:
+                        self._body(s.body, frame)
+                    finally:
+                        self._local_consts = saved_lc
+                    self.stack.pop()
+                    for a, l in self.dangling:
+                        self._edge(a, l, resume)
+                    self.dangling = [(resume, 'next')]
+                saved = getattr(self, '_yield_hook', None)
+                self._yield_hook = (frozenset(id(y) for y in yields), body)
+                try:
+                    self.dangling = self._inline(e2, t, frame, res)
+                finally:
+                    self._yield_hook = saved
+                self._body(s.orelse, frame)
+                self.dangling = self.dangling + breaks
         elif isinstance(s, (ast.For, ast.AsyncFor)):
             self._expr(s.iter, frame)
             head = self._emit('iter', s, frame)
@@ -688,6 +764,44 @@ class Builder:
                 self.stack.pop()
             self._flush_pending(fin_scope, base_level, frame)
 
+    def _gen_target(self, e, frame):
+        """(target, resolution, yield nodes) when `e` calls a generator
+        function of the repository (not a context manager) that may be
+        inlined into the for statement iterating it"""
+        if not isinstance(e, ast.Call) or frame.depth >= self.max_depth:
+            return None
+        memo = self.__dict__.setdefault('_gen_memo', {})
+        key = (id(e), id(frame))
+        if key in memo:
+            return memo[key]
+        memo[key] = None
+        res = self._resolve(e, frame)
+        if len(res.targets) != 1 or res.externals or res.unresolved or \
+                getattr(res, 'via', None) is not None:
+            return None
+        t = res.targets[0]
+        f = t.func
+        if not f.is_generator or any(
+                d.rpartition('.')[2] == 'contextmanager'
+                for d in f.decorators):
+            return None
+        active = {fr.ctx.key() for fr in frame.chain()}
+        if t.ctx().key() in active or not self.inline(self, e, t, frame):
+            return None
+        from .model import walk_own
+        ys = [x for x in walk_own(f.node)
+              if isinstance(x, (ast.Yield, ast.YieldFrom))]
+        if not ys or any(isinstance(y, ast.YieldFrom) for y in ys):
+            return None
+        # only `yield v` as a statement (or `x = yield v`)
+        stmts = [x for x in walk_own(f.node)
+                 if isinstance(x, (ast.Expr, ast.Assign)) and
+                 any(x.value is y for y in ys)]
+        if len(stmts) != len(ys):
+            return None
+        memo[key] = (t, res, ys)
+        return memo[key]
+
     def _cm_target(self, e, frame):
         """(target, resolution) when `e` calls a @contextmanager generator
         of the repository that may be inlined here: one `yield` statement,
@@ -816,6 +930,32 @@ class Builder:
             r = self._null_test(e, frame)
             if r is not None:
                 return r
+        if isinstance(e, ast.Name) and e.id in frame.ctx.func.params and \
+                frame.parent is not None:
+            # a flag parameter whose literal value is known at this
+            # inlining site: only one way to go
+            for k, v in frame.ctx.consts:
+                if k == e.id and isinstance(v, (bool, int, str, bytes,
+                                                type(None))):
+                    from .model import walk_own
+                    if not any(isinstance(x, ast.Name) and x.id == e.id and
+                               isinstance(x.ctx, (ast.Store, ast.Del))
+                               for x in walk_own(frame.ctx.func.node)):
+                        if not self.dangling:
+                            return [], []
+                        n = self._emit('test', e, frame)
+                        if v:
+                            return [(n, 'T')], []
+                        return [], [(n, 'F')]
+        if isinstance(e, ast.Name) and \
+                (id(frame), e.id) in getattr(self, '_local_consts', {}):
+            v = self._local_consts[(id(frame), e.id)]
+            if not self.dangling:
+                return [], []
+            n = self._emit('test', e, frame)
+            if v:
+                return [(n, 'T')], []
+            return [], [(n, 'F')]
         if isinstance(e, ast.Name) and self.thread_returns:
             d = self._bool_def(e, frame)
             if d is not None:
@@ -1296,6 +1436,33 @@ class Builder:
         if (res.targets or res.externals) and not res.unresolved:
             return res
         f = e.func
+        if isinstance(f, ast.Name) and f.id not in frame.ctx.func.params:
+            # a local alias of a bound method / function, assigned once:
+            #   add = self._add_fragment ... add(x)
+            from .model import walk_own
+            fn = frame.ctx.func
+            stores = [x for x in walk_own(fn.node) if isinstance(x, ast.Name)
+                      and x.id == f.id and
+                      isinstance(x.ctx, (ast.Store, ast.Del))]
+            defs = [a for a in walk_own(fn.node)
+                    if isinstance(a, ast.Assign) and len(a.targets) == 1 and
+                    isinstance(a.targets[0], ast.Name) and
+                    a.targets[0].id == f.id and
+                    isinstance(a.value, ast.Attribute)]
+            if len(stores) == 1 and len(defs) == 1:
+                synth = ast.Call(func=defs[0].value, args=list(e.args),
+                                 keywords=list(e.keywords))
+                ast.copy_location(synth, e)
+                synth._orig = e
+                try:
+                    r2 = self.r.resolve_call(synth, frame.ctx)
+                except Exception:
+                    return res
+                if r2.targets or r2.externals:
+                    r2 = self._copy_res(r2)
+                    r2.via = synth
+                    return r2
+            return res
         if not (isinstance(f, ast.Name) and f.id in frame.bindings and
                 f.id in frame.ctx.func.params):
             return res
